@@ -30,7 +30,7 @@ type corruption struct {
 // the library, and the recorded outcome of the case would no longer be a
 // function of the seed.
 func nilPointerKind(kind string) bool {
-	return strings.HasPrefix(kind, "typednil:") || kind == "nil:extra-type" || kind == "nil:directive" ||
+	return strings.HasPrefix(kind, "typednil:") || kind == "nil:extra-type" || kind == "nil:appended-type" || kind == "nil:directive" ||
 		kind == "nil:directive-arg-config" || kind == "forward-literal"
 }
 
@@ -530,6 +530,16 @@ func init() {
 	add(corruption{"typednil:extra-type", "illegal", func(m *Model, r *core.RNG) bool {
 		i := r.Intn(len(m.Extra) + 1)
 		m.Extra = append(m.Extra[:i:i], append([]string{"<typednil>"}, m.Extra[i:]...)...)
+		return true
+	}})
+	add(corruption{"nil:appended-type", "illegal", func(m *Model, r *core.RNG) bool {
+		i := r.Intn(len(m.Appended) + 1)
+		m.Appended = append(m.Appended[:i:i], append([]string{"<nil>"}, m.Appended[i:]...)...)
+		return true
+	}})
+	add(corruption{"typednil:appended-type", "illegal", func(m *Model, r *core.RNG) bool {
+		i := r.Intn(len(m.Appended) + 1)
+		m.Appended = append(m.Appended[:i:i], append([]string{"<typednil>"}, m.Appended[i:]...)...)
 		return true
 	}})
 	add(corruption{"nil:directive", "illegal", func(m *Model, r *core.RNG) bool {
